@@ -118,6 +118,10 @@ struct Obj {
     steps_nontrivial: bool,
     /// read-back of the map after the last transition
     snap: Option<hook::MapSnapshot>,
+    /// the pre-fill itself went wrong (driver panic, an owed id handed out twice): reported by `check`/`apply`
+    init_error: Option<String>,
+    /// stream id -> index of the pre-filled background request written on it (-1: none)
+    bg_index: Vec<i32>,
 }
 
 struct M {
@@ -180,7 +184,11 @@ impl M {
     }
     /// read the map's collections back through the hook now
     fn fresh(&self, o: &Obj) -> Option<hook::MapSnapshot> {
-        o.map.as_ref().map(|m| m.snapshot(64, BG_BASE))
+        o.map.as_ref().map(|m| m.snapshot(self.listing(), BG_BASE))
+    }
+    /// how many ids the read-back lists individually (the allocated ones for small pre-fills, the free ones for (nearly) full maps)
+    fn listing(&self) -> usize {
+        if self.prefill <= 2048 { 4096 } else { 64 }
     }
 
     /// every other receiver must be untouched by an event that concerns request `except`
@@ -211,18 +219,42 @@ impl Model for M {
         let mut map = hook::new_map();
         let mut owed = vec![false; 32768];
         let mut owed_count = 0;
+        let mut init_error = None;
+        let mut bg_index = vec![-1i32; 32768];
         let bg = if self.prefill > 0 {
-            let p = map.prefill(self.prefill, BG_BASE);
-            for i in 0..p.len() {
-                owed[p.stream(i) as usize] = true;
-                owed_count += 1;
+            match vcore::catch(std::panic::AssertUnwindSafe(|| map.prefill(self.prefill, BG_BASE))) {
+                Ok(p) => {
+                    for i in 0..p.len() {
+                        let s = p.stream(i);
+                        if s < 0 {
+                            init_error.get_or_insert(format!("allocate:negative-id|allocate call {} of the pre-fill returned stream id {s}", i + 1));
+                            continue;
+                        }
+                        if owed[s as usize] {
+                            init_error.get_or_insert(format!("allocate:id-still-owed|allocate call {} of the pre-fill returned stream id {s}, which an earlier still unanswered request already carries", i + 1));
+                            continue;
+                        }
+                        owed[s as usize] = true;
+                        bg_index[s as usize] = i as i32;
+                        owed_count += 1;
+                    }
+                    if p.len() < self.prefill && init_error.is_none() {
+                        init_error = Some(format!("PRECONDITION|the pre-fill stopped after {} of {} allocate calls although ids are free (spurious refusal; the scenario cannot be set up)", p.len(), self.prefill));
+                    }
+                    Some(p)
+                }
+                Err(p) => {
+                    init_error = Some(h_drv::router_harness::panic_complaint(&format!("pre-filling the map with {} allocate calls", self.prefill), &p));
+                    // the map may be half-updated: continue with a fresh one, the error is reported at once
+                    map = hook::new_map();
+                    None
+                }
             }
-            Some(p)
         } else {
             None
         };
-        let snap = Some(map.snapshot(64, BG_BASE));
-        Obj { map: Some(map), bg, bg_answered: BTreeSet::new(), reqs: Vec::new(), next_rid: 0, owed, owed_count, broken: false, steps_nontrivial: false, snap }
+        let snap = Some(map.snapshot(self.listing(), BG_BASE));
+        Obj { map: Some(map), bg, bg_answered: BTreeSet::new(), reqs: Vec::new(), next_rid: 0, owed, owed_count, broken: false, steps_nontrivial: false, snap, init_error, bg_index }
     }
 
     fn enabled(&self, o: &Obj) -> Vec<Ev> {
@@ -256,7 +288,7 @@ impl Model for M {
         }
         if o.bg_answered.len() < self.bg_budget {
             for &s in &self.bg_candidates {
-                if (s as usize) < self.prefill && o.owed[s as usize] && !o.bg_answered.contains(&s) && !o.reqs.iter().any(|q| q.stream == Some(s) && q.phase == Phase::Written) {
+                if o.bg_index[s as usize] >= 0 && o.owed[s as usize] && !o.bg_answered.contains(&s) && !o.reqs.iter().any(|q| q.stream == Some(s) && q.phase == Phase::Written) {
                     v.push(Ev::RespondBg(s));
                 }
             }
@@ -278,6 +310,9 @@ impl Model for M {
     }
 
     fn apply(&self, o: &mut Obj, ev: &Ev) -> Result<(), String> {
+        if let Some(e) = &o.init_error {
+            return Err(e.clone());
+        }
         let idx = |o: &Obj, rid: u64| o.reqs.iter().position(|q| q.rid == rid).ok_or_else(|| format!("harness|event {ev:?} names a request that is not alive"));
         match ev {
             Ev::Submit => {
@@ -417,12 +452,16 @@ impl Model for M {
                 o.owed[*s as usize] = false;
                 o.owed_count -= 1;
                 o.bg_answered.insert(*s);
-                let want_rid = BG_BASE + *s as u64;
+                let bg_i = o.bg_index[*s as usize];
+                if bg_i < 0 {
+                    return Err(format!("harness|respond-bg:{s} but no pre-filled request travels on that stream"));
+                }
+                let want_rid = BG_BASE + bg_i as u64;
                 match outcome {
                     hook::LookupOutcome::Handler(tx) if tx.request_id() == want_rid => {
                         tx.send_response(response(*s, want_rid));
                         let bg = o.bg.as_mut().unwrap();
-                        match bg.poll(*s as usize) {
+                        match bg.poll(bg_i as usize) {
                             hook::RxPoll::Response(r) if r.body == token(want_rid) => {}
                             other => return Err(format!("misdelivery:wrong-content|background caller on stream {s} received {other:?}")),
                         }
@@ -469,6 +508,9 @@ impl Model for M {
     }
 
     fn check(&self, o: &Obj) -> Result<(), String> {
+        if let Some(e) = &o.init_error {
+            return Err(e.clone());
+        }
         if o.broken {
             return Ok(());
         }
@@ -478,10 +520,12 @@ impl Model for M {
             return Err(format!("reserved:owed-id-not-reserved|{} ids are owed by the server but only {} are reserved", o.owed_count, snap.allocated_count));
         }
         let reserved_is = |s: i16| -> bool {
-            if !snap.allocated.is_empty() || snap.allocated_count == 0 {
+            if snap.allocated.len() == snap.allocated_count {
                 snap.allocated.binary_search(&s).is_ok()
-            } else {
+            } else if snap.free.len() == 32768 - snap.allocated_count {
                 snap.free.binary_search(&s).is_err()
+            } else {
+                true // neither side is listed (cannot happen with the listing limits used)
             }
         };
         for q in &o.reqs {
@@ -527,6 +571,9 @@ impl Model for M {
             let h: Vec<(i16, i64)> = snap.handlers.iter().map(|(st, r)| (*st, rank(*r))).collect();
             let m: Vec<(i64, i16)> = snap.request_to_stream.iter().map(|(r, st)| (rank(*r), *st)).collect();
             s.push_str(&format!("f={:?}|bga={:?}|nbg={},{}|h={:?}|m={:?}", snap.free, o.bg_answered, snap.hidden_handlers, snap.hidden_request_to_stream, h, m));
+            if snap.allocated.len() == snap.allocated_count && snap.allocated_count <= 4096 {
+                s.push_str(&format!("|a={:?}", snap.allocated));
+            }
         }
         s.push_str(&format!("|o={:?}|t={:?}", snap.orphans, snap.orphans_by_time));
         if o.steps_nontrivial {
@@ -603,6 +650,11 @@ struct Scenario {
 
 fn scenarios(thorough: bool) -> Vec<Scenario> {
     let mut v = vec![Scenario { lean: false, with_break: true, name: "empty".into(), k: if thorough { 4 } else { 3 }, prefill: 0, bg_candidates: vec![], bg_budget: 0 }];
+    // more than 64 / more than 128 / 200 ids owed at once (first, second and third bitmap block full), the peer then
+    // answers ids inside block 0 and at the block borders: every id handed out afterwards must not be owed
+    for p in [65usize, 129, 200] {
+        v.push(Scenario { lean: !thorough, with_break: thorough, name: format!("prefill-{p}"), k: 2, prefill: p, bg_candidates: vec![0, 1, 63, 64, 128], bg_budget: 2 });
+    }
     for j in 0..=2usize {
         if thorough {
             // full alphabet with break, two requests alive, one background answer out of eight boundary ids
@@ -670,7 +722,10 @@ fn main() {
                 let (k, t) = key_of(&w);
                 r.violation(&k, &t, case.clone());
             }
-            Err(p) => r.violation("panic", &format!("panic in the handler map: {p} at {}", vcore::last_panic_location()), case.clone()),
+            Err(p) => {
+                let (k, t) = key_of(&h_drv::router_harness::panic_complaint("replaying the history on the real handler map", &p));
+                r.violation(&k, &t, case.clone());
+            }
         }
         r.finish_replay();
     }
@@ -712,6 +767,9 @@ fn main() {
         let res = bfs(&CatchModel(&m), &opts);
         for v in &res.violations {
             let (k, t) = key_of(&v.what);
+            if k == "PRECONDITION" || k == "harness" {
+                vcore::machinery_error(&format!("scenario {}: {t}", sc.name));
+            }
             if k == "LEAK" {
                 vcore::machinery_error(&format!("scenario {}: the reachable space is not finite - stream ids stay reserved after the server answered (not a C02 violation, but the fixpoint search cannot decide): {t}; history {:?}", sc.name, v.history.iter().map(|e| e.to_s()).collect::<Vec<_>>()));
             }
@@ -799,7 +857,7 @@ impl Model for CatchModel<'_> {
     fn apply(&self, o: &mut Obj, ev: &Ev) -> Result<(), String> {
         match vcore::catch(std::panic::AssertUnwindSafe(|| self.0.apply(o, ev))) {
             Ok(x) => x,
-            Err(p) => Err(format!("panic|the handler map panicked on {}: {p} at {}", ev.to_s(), vcore::last_panic_location())),
+            Err(p) => Err(h_drv::router_harness::panic_complaint(&format!("event {} on the real handler map", ev.to_s()), &p)),
         }
     }
     fn check(&self, o: &Obj) -> Result<(), String> {
